@@ -54,6 +54,7 @@ def rule_C17(ctx, rule="C17-deleg"):
     F = ctx.F
     impls = [i for i in F.impls if ("LeanString" == i["self"] or "LeanString" in i["trait_args"]) and not i["self"].startswith("errors::")]
     seen = {}
+    eq_family = {i["items"]["eq"] for i in impls if i["trait"] == "core::cmp::PartialEq" and "eq" in i["items"]}
     for i in impls:
         tr, self_ty, targs = i["trait"], i["self"], i["trait_args"]
         key = (tr, self_ty, tuple(targs))
@@ -83,15 +84,29 @@ def rule_C17(ctx, rule="C17-deleg"):
                         oky = y == c or (c.startswith("*") and y == c[1:] and m.group(1) != STR_EQ[0]) or (not c.startswith("TEXT") and y.lstrip("*") == c.lstrip("*"))
                         okx = okx or (not a.startswith("TEXT") and x.lstrip("*") == a.lstrip("*"))
                         ok = okx and oky
-                extra = [n for n in calls if n not in STR_EQ_ALL and n not in GLUE_CALLS]
-                ob(ok and not extra, "eq = str equality of text(self) and text(other)", "%s for %s: eq returns %s (calls %s): not a pure comparison of the two texts" % (tr, self_ty, ds, calls))
+                fwd = None
+                if not ok and len(ds) == 1:
+                    # forwarding to a sibling impl (PartialEq<&str> via PartialEq<str>, `other == self`):
+                    # fine when the two arguments denote the same two texts (equality is symmetric);
+                    # the sibling is judged on its own
+                    m = re.match(r"^(<[^()]* as core::cmp::PartialEq<[^()]*>>::eq|<impl core::cmp::PartialEq<[^()]*> for [^()]*>::eq)\((.*), (.*)\)$", ds[0])
+                    if m and m.group(1) in eq_family and m.group(1) != k:
+                        tys = {"p1": self_ty, "p2": other}
+                        den = lambda x: (x if tys.get(x) in ("str", "&str") else "TEXT(%s)" % x) if x in tys else x
+                        if {den(m.group(2)), den(m.group(3))} == {a, c}:
+                            ok, fwd = True, m.group(1)
+                extra = [n for n in calls if n not in STR_EQ_ALL and n not in GLUE_CALLS and n != fwd]
+                ob(ok and not extra, ("eq forwards to %s with the same two texts" % fwd) if fwd else "eq = str equality of text(self) and text(other)", "%s for %s: eq returns %s (calls %s): not a pure comparison of the two texts" % (tr, self_ty, ds, calls))
             elif tr == "core::cmp::PartialEq" and nm == "ne":
                 ob(False, "", "custom `ne` on %s" % self_ty)
             elif tr == "core::cmp::Ord" and nm == "cmp":
                 want = ["%s(TEXT(p1), TEXT(p2))" % f for f in STR_CMP]
                 ob(len(ds) == 1 and ds[0] in want and not [n for n in calls if n not in STR_CMP and n not in GLUE_CALLS], "cmp = <str as Ord>::cmp(text, text)", "Ord::cmp returns %s" % ds)
             elif tr == "core::cmp::PartialOrd" and nm == "partial_cmp":
-                want = ["core::option::Option::Some{<LeanString as core::cmp::Ord>::cmp(p1, p2)}"] + ["core::option::Option::Some{%s(TEXT(p1), TEXT(p2))}" % f for f in STR_CMP] + ["core::str::traits::<impl core::cmp::PartialOrd for str>::partial_cmp(TEXT(p1), TEXT(p2))"]
+                other = targs[0] if targs else "LeanString"
+                a = "TEXT(p1)" if self_ty == "LeanString" else _raw_text("p1", self_ty)[0]
+                c = "TEXT(p2)" if other == "LeanString" else _raw_text("p2", other)[0]
+                want = ["core::option::Option::Some{<LeanString as core::cmp::Ord>::cmp(p1, p2)}"] + ["core::option::Option::Some{%s(%s, %s)}" % (f, a, c) for f in STR_CMP] + ["core::str::traits::<impl core::cmp::PartialOrd for str>::partial_cmp(%s, %s)" % (a, c)]
                 ob(len(ds) == 1 and ds[0] in want, "partial_cmp = Some(cmp)", "partial_cmp returns %s" % ds)
             elif tr == "core::cmp::PartialOrd":
                 ob(False, "", "custom PartialOrd::%s on LeanString" % nm)
@@ -192,7 +207,8 @@ def rule_C19(ctx, rule="C19-deleg"):
             b = F.bodies.get(i["items"].get("serialize"))
             if b:
                 ds = [norm(d) for d in ret_defs(b)]
-                ok = len(ds) == 1 and re.match(r"^serde(_core)?::ser::impls::<impl serde(_core)?::ser::Serialize for str>::serialize\(TEXT\(p1\), p2\)$", ds[0]) is not None
+                ok = len(ds) == 1 and (re.match(r"^serde(_core)?::ser::impls::<impl serde(_core)?::ser::Serialize for str>::serialize\(TEXT\(p1\), p2\)$", ds[0]) is not None
+                                       or re.match(r"^serde(_core)?::ser::Serializer::serialize_str\(p2, TEXT\(p1\)\)$", ds[0]) is not None)   # what <str as Serialize>::serialize does
                 ctx.ob(rule, b.path, "serialize", ok, how="serialize = <str as Serialize>::serialize(as_str(self), serializer) (what String does)", detail="Serialize returns %s" % ds)
         for i in de:
             b = F.bodies.get(i["items"].get("deserialize"))
@@ -204,13 +220,24 @@ def rule_C19(ctx, rule="C19-deleg"):
             items = i["items"]
             for m in ("visit_str", "visit_borrowed_str", "visit_bytes", "visit_borrowed_bytes"):
                 ctx.ob(rule, i["self"], "has:" + m, m in items, how="visitor implements " + m, detail="visitor lacks %s: that input kind is rejected or routed through the default" % m)
+            def forwards(b, to):
+                """`visit_borrowed_x(self, v) = self.visit_x(v)`: judged at visit_x"""
+                ds_ = ret_defs(b)
+                return to in items and len(ds_) == 1 and ds_[0] == "%s(p1, p2)" % items[to] and [callee_name(t) for _, t in b.calls()] == [items[to]]
             for m in ("visit_str", "visit_borrowed_str"):
                 b = F.bodies.get(items.get(m))
+                if b and m == "visit_borrowed_str" and forwards(b, "visit_str"):
+                    ctx.ob(rule, b.path, m, True, how="forwards to visit_str(v)")
+                    continue
                 if b:
                     ds = ret_defs(b)
                     ctx.ob(rule, b.path, m, len(ds) == 1 and re.match(r"^core::result::Result::Ok\{%s\(p2\)\}$" % FROMSTR, ds[0]) is not None, how="Ok(LeanString::from(v))", detail="%s returns %s" % (m, ds))
             for m in ("visit_bytes", "visit_borrowed_bytes"):
                 b = F.bodies.get(items.get(m))
+                if b and m == "visit_borrowed_bytes" and forwards(b, "visit_bytes"):
+                    ctx.ob(rule, b.path, m, True, how="forwards to visit_bytes(v)")
+                    ctx.ob(rule, b.path, m + ":validates", True, how="forwards to visit_bytes(v)")
+                    continue
                 if b:
                     ds = sorted(ret_defs(b))
                     X = r"core::str::converts::from_utf8\(p2\)"
@@ -229,6 +256,11 @@ def rule_C19(ctx, rule="C19-deleg"):
                     ds = sorted(ret_defs(b))
                     X = r"arbitrary::foreign::core::str::<impl arbitrary::Arbitrary<'a> for &'a str>::%s\(p1\)" % m
                     ok, why = mapped_result(b, ds, X)
+                    if not ok and m == "arbitrary":
+                        # `u.arbitrary::<&str>()` is by definition <&str as Arbitrary>::arbitrary(u)
+                        ga = [t.get("generic_args", []) for _, t in b.calls() if callee_name(t) == "arbitrary::unstructured::Unstructured::<'a>::arbitrary"]
+                        if len(ga) == 1 and len(ga[0]) >= 1 and re.match(r"^&('\w+ )?str$", ga[0][-1]):
+                            ok, why = mapped_result(b, ds, r"arbitrary::unstructured::Unstructured::<'a>::arbitrary\(p1\)")
                     ctx.ob(rule, b.path, m, ok, how="<&str as Arbitrary>::%s(u).map(LeanString::from)" % m, detail="%s returns %s (%s)" % (m, ds, why))
             b = F.bodies.get(i["items"].get("size_hint"))
             if b:
@@ -446,6 +478,14 @@ def rule_C15(ctx, rule="C15"):
             calls = [(callee_name(t), [describe(b, b.origin_operand(a)) for a in t["args"]]) for _, t in b.calls()]
             ds = ret_defs(b)
             ok = calls == [("LeanString::push_str", ["p1", "p2"])] and ds == ["core::result::Result::Ok{tuple::None{}}"]
+            if not ok and ds == ["core::result::Result::Ok{tuple::None{}}"]:
+                # `*self += s`: through the AddAssign<&str> impl, which is push_str(self, rhs)
+                from guards import inlining, inlined_sites
+                fw = {i2["items"][m2] for i2 in F.impls if i2["self"] == "LeanString" and i2["trait"] in ("core::ops::arith::AddAssign",) for m2 in i2["items"]}
+                with inlining(fw):
+                    sites = inlined_sites(b, lambda nm: nm == "LeanString::push_str")
+                    allc = [callee_name(t) for _, _, t in inlined_calls(b)]
+                    ok = len(sites) == 1 and [sites[0].desc(0), sites[0].desc(1)] == ["p1", "p2"] and all(n == "LeanString::push_str" or n in fw for n in allc)
             ctx.ob(rule, b.path, "write_str=push_str", ok, how="write_str(s) = push_str(s); Ok(())", detail="write_str does %s and returns %s" % (calls, ds))
     # the generic fallback of try_to_lean_string
     key = "<T as traits::ToLeanString>::try_to_lean_string"
